@@ -4563,6 +4563,12 @@ fn eval_builtin<S: EvalSemantics, V: DocumentValue>(
                     .map(to_owned_cursor)
                     .collect();
                 GenericResult::Owned(OwnedValue::Array(values))
+            } else if value.is_null() {
+                // jq: null | reverse => []
+                GenericResult::Owned(OwnedValue::Array(Vec::new()))
+            } else if let (true, Some(s)) = (value.type_name() == "string", value.as_str()) {
+                // `reverse` also works on strings, by character
+                GenericResult::Owned(OwnedValue::String(s.chars().rev().collect()))
             } else if optional {
                 GenericResult::None
             } else {
